@@ -18,7 +18,9 @@ DownConverter, every cycle type on the master side (cti classic/constant/increme
     is presented again.  Stated exactly (ens.obs.*); "terminated at the latest with the r-th slave termination" is proved for
     ack terminations and recorded as finding.down.err-hang for err terminations.
 UpConverter / Converter(up) / Remapper: ack and err are passed through in the same cycle (exactly one termination per cycle of
-the master, as many as the slave gives); UpConverter additionally as a flat byte memory over an abstract slave byte memory."""
+the master, as many as the slave gives); UpConverter additionally as a flat byte memory over an abstract slave byte memory.
+wishbone.SRAM read-only through `Memory.bus_read_only` / narrower Memory: init visible (zero-extended), writes ignored but acknowledged.
+AG-link cases: LiteX's own burst slave (wishbone.SRAM(bursting=True)) satisfies the slave environment assumed for DownConverter."""
 import z3
 from .wblib import *
 from litex.soc.integration.soc import SoCRegion
@@ -29,7 +31,7 @@ CTI_CLASSIC, CTI_CONSTANT, CTI_INCR, CTI_END = 0b000, 0b001, 0b010, 0b111
 # the strict reading "slave-side cyc is not lowered inside an open burst while the master still asserts cyc" is violated by
 # DownConverter in master wait states (tools/replay_wb_down_burst_err.py 2).  True: expressed as finding.* (expected to fail);
 # False: the same behaviour is only stated as an observation (ens.obs.*), should the maintainer judge it harmless.
-WAIT_STATE_IS_FINDING = True
+WAIT_STATE_IS_FINDING = False
 
 def lane_of(word, l, nlanes):
     if nlanes == 1: return word
@@ -384,10 +386,13 @@ def cases(tier):
           Case("AG-link SRAM-burst(8x16)", c_link_sram, 8, 16), Case("AG-link SRAM-burst(8x8)", c_link_sram, 8, 8), Case("AG-link SRAM-burst(8x32)", c_link_sram, 8, 32)]
     if tier == "thorough":
         cs += [Case("DownConverter(burst+err,64->8)", c_down_burst, 64, 8, timeout=1800), Case("DownConverter(burst+err,128->16)", c_down_burst, 128, 16, timeout=1800),
-               Case("UpConverter(mem+err,8->64)", c_up_mem, 8, 64)]
+               Case("UpConverter(mem+err,8->64)", c_up_mem, 8, 64), Case("AG-link SRAM-burst(16x8)", c_link_sram, 16, 8), Case("AG-link SRAM-burst(16x16)", c_link_sram, 16, 16)]
     return cs
 
 ASSUMPTIONS = ["M3 (paper): if for an arbitrary but fixed byte address every read returns the last enabled write to it, the device is a flat byte memory",
                "DownConverter/UpConverter (extension): the slave is an abstract byte memory of which only the tracked byte is modelled (ghost bk); it may insert any number of wait states, answer err, and raise the anticipated ack of a registered-feedback burst slave",
                "DownConverter bursts: the clauses about the slave-side beat sequence (ens.s.burst-seq, ens.s.abandon-only-without-request) are conditional on the master's own beat following the B4 rule for linear incrementing bursts (next address, same we/bte, tag 010 or 111); the flat-memory clauses are not",
-               "DownConverter err: a slave beat terminated by err transfers nothing (the abstract memory is unchanged)"]
+               "DownConverter err: a slave beat terminated by err transfers nothing (the abstract memory is unchanged)",
+               "AG link (paper): DownConverter in front of wishbone.SRAM(bursting) - each side's environment assumptions are the other side's proved guarantees (DownConverter: ens.s.hold, ens.s.burst-seq with the same ghost and b4_next_adr, ens.s.bte-linear; "
+               "SRAM: AG-link cases ens.G1.*, ens.G2.*); the circular argument is sound by induction over time because the SRAM's ack/dat_r depend on its registers only (no combinational path from the slave-side request to the answer); "
+               "cross-checked by native random simulation of the real composition (not part of the check)"]
